@@ -169,7 +169,7 @@ class VCtx:
                 return True
         return self.check(name, cond)
 
-    def check_equal(self, name, xs, ys):
+    def check_equal(self, name, xs, ys, coeff_tol=None):
         """
         obligation: xs[i] == ys[i] for all i.  Pairs that are polynomial identities are decided exactly by normal forms
         (pyvc.poly: holds for all values, no path condition needed); what remains goes to the SMT solvers as one conjunction.
@@ -178,10 +178,13 @@ class VCtx:
         if len(xs) != len(ys):
             return self.check(name, False)
         if not self.symbolic:
+            if coeff_tol is not None:
+                return self.check(name, all(abs(x - y) <= 1e3 * coeff_tol * max(1.0, abs(x), abs(y)) for x, y in zip(xs, ys)))
             return self.check(name, all(bool(x == y) for x, y in zip(xs, ys)))
         from . import poly
         import z3
         cache, rest, differ = {}, [], []
+        approx_used = False
         for x, y in zip(xs, ys):
             if sym.is_sym(x) or sym.is_sym(y):
                 try:
@@ -194,13 +197,16 @@ class VCtx:
                 r = poly.identical(tx, ty, cache)
                 if r is True:
                     continue
+                if r is False and coeff_tol is not None and poly.close(tx, ty, coeff_tol, cache) is True:
+                    approx_used = True
+                    continue
                 if r is False:
                     differ.append((tx, ty))
                 rest.append(x == y)
-            elif not (x == y):
+            elif not (x == y) and not (coeff_tol is not None and abs(x - y) <= coeff_tol * max(1.0, abs(x))):
                 rest.append(False)
         if not rest:
-            self.result.record(name, 'proved', 'poly', None)
+            self.result.record(name, 'proved', f'poly~{coeff_tol:g}' if approx_used else 'poly', None)
             return True
         # normal forms differ: look for a point where the two sides differ (exact evaluation), admissible on this path
         for tx, ty in differ[:3]:
